@@ -47,27 +47,29 @@ Theorem cssparse_nesting : forall d inline n tr, parse_run n (new_parser d inlin
 Proof. exact cssparse_nesting_proof. Qed.
 Print Assumptions cssparse_nesting.
 
-(* C08 (partial): on every input, in both modes and for every number of calls, every token reported through data or
+(* C08: on every input, in both modes and for every number of calls, every token reported through data or
    Values() is (rep_tok) a token the lexer returns on the input - same type, same bytes; by lexer_tok_in_lex an
    element of css_lex d - or one of the synthesised forms: the single space, the empty token of a ruleset, the '}'
    that ended the previous unit, ErrorToken/nil, a lower-cased copy, the IE-hack token ('*' glued to the following
    lexer token), or, for a custom property, a value that is an exact slice of the source text.
-   MISSING: the source order of the Values() of ErrorGrammar units (for all other units cssparse_source_order below). *)
-Theorem cssparse_conservation_partial : forall d inline n tr, parse_run n (new_parser d inline) = POk tr ->
+   The source order of these tokens, and that none is reported twice, is cssparse_source_order below. *)
+Theorem cssparse_conservation : forall d inline n tr, parse_run n (new_parser d inline) = POk tr ->
   Forall (fun r => reported_ok d (snd r)) tr.
 Proof. exact cssparse_conservation_proof. Qed.
-Print Assumptions cssparse_conservation_partial.
+Print Assumptions cssparse_conservation.
 
 (* C08 (source order): on every input, in both modes and for every number of calls, the tokens reported along the
-   run - data of every unit but ErrorGrammar, then Values() of AtRule / BeginAtRule / BeginRuleset / Declaration /
-   CustomProperty units (reported, Order.v) - form a chain: dropping the synthesised ones (space, empty, the '}' that
+   run - for every unit its data, then its Values() (Next clears the buffer first, so they are the unit's own; reported,
+   Order.v) - form a chain: dropping the synthesised ones (space, empty, the '}' that
    ended the previous unit, ErrorToken/nil), each stems from an interval [a, b) of the input (src): a lexer token is
    the token the lexer returns at position a and ends at b, a lower-cased copy has the interval of its original, a
    custom-property value is exactly the bytes [a, b), and the IE-hack token spans its '*' and the token glued to it
    (the known finding conservation-iehack, stated as the exact exception S_glued); these intervals are pairwise
    disjoint and increase along the run.  So the reported source tokens are a subsequence of the lexer's tokens in
-   source order and none is reported twice.  ErrorGrammar units are left out: their data repeats a token of their
-   Values(), and at the end of the input their Values() are those of an earlier unit. *)
+   source order and none is reported twice.  The exact exception: of an ErrorGrammar unit only Values() are taken -
+   when a declaration is in error (erroneous input only) parseDeclarationError sets data to the offending token and
+   also appends it to Values(), so data repeats a token of Values(); for the other ErrorGrammar units data is
+   ErrorToken/nil, the empty token of a ruleset, or the name of the at-rule / custom property that is in error. *)
 Theorem cssparse_source_order : forall d inline n tr, parse_run n (new_parser d inline) = POk tr ->
   chain d 0 (concat (map reported tr)) (len d).
 Proof. exact cssparse_source_order_proof. Qed.
@@ -79,28 +81,31 @@ Theorem cssparse_lexer_tok_in_lex : forall d t b, lexer_tok d t b ->
 Proof. exact lexer_tok_in_lex. Qed.
 Print Assumptions cssparse_lexer_tok_in_lex.
 
-(* C08 (partial): a stylesheet whose lexer token list is, in document order, a sequence of events (ev, WellFormed.v)
+(* C08: a stylesheet whose lexer token list is, in document order, a sequence of events (ev, WellFormed.v)
        EOpen:    (ws? selector-token)+ ws? '{'                                      EClose:  ws? '}'
        EDecl:    ws? ident ws? ':' (ws? value-token)+ [ws? ';']
        ECustom:  ws? custom-property-name ws? ':' raw-token* [';']
        EAtRule:  ws? at-keyword (ws? prelude-token)* [ws? ';']
        EBeginAtRule: ws? at-keyword (ws? prelude-token)* ws? '{'                    EEndAtRule:  ws? '}'
+       EUTok:    a token inside the block of an unknown at-rule
        EComment: ws? comment          EToken: ws? CDO | ws? CDC
    that nest properly (evs_ok over the stack of open blocks - ruleset, rule block of @media / @supports / @layer /
-   @keyframes / @document, declaration block of @font-face / @page, the kind decided by the hash parseAtRule computes
-   from the lower-cased name without vendor prefix, at_st; ToHash is total, so no hypothesis about it is left):
+   @keyframes / @document, declaration block of @font-face / @page, token block of any other at-rule; the kind is
+   decided by the hash parseAtRule computes from the lower-cased name without vendor prefix, at_st; ToHash is total):
    declarations and custom properties inside a ruleset or a declaration block (custom properties also at the top
-   level); rulesets anywhere (nested ones inside
-   such blocks); at-rules anywhere; comments, CDO and CDC at the top level; a unit written without its ';' is
-   followed directly by the '}' of its block (the usual way to write the last declaration: the parser reads the '}'
-   with that unit and reports the end of the block on the next call with the synthesised "}"); every '}' closes
-   the innermost block; everything closed at the end; any depth), followed by ws?
+   level); rulesets anywhere but in a token block (nested ones inside rulesets and declaration blocks); at-rules
+   anywhere but in a token block; comments, CDO and CDC at the top level; a unit written without its ';' is followed
+   directly by the '}' of its block (the usual way to write the last declaration: the parser reads the '}' with
+   that unit and reports the end of the block on the next call with the synthesised "}"); inside the block of an
+   unknown at-rule every lexer token but comments is an event (the whitespace directly after the '{' is skipped,
+   keepWS being switched on by the first call; later whitespace tokens are events; a '}' inside nested brackets is a
+   token, the one at bracket level 0 ends the block); every '}' closes the innermost block; everything closed at the
+   end; any depth), followed by ws?
    (ws: a Whitespace token; selector-/value-/prelude-token: any token but whitespace, comment, '{', '}', ';', with
    brackets and function parentheses balanced - toks_ok / lv_after; raw tokens include whitespace and comments, no
    ';' '}' ')' ']' at bracket level 0 - raw_ok / raw_lv; the first token of a top-level selector is none of CDO,
    CDC, at-keyword, custom-property name - sel_first; the first token of a nested selector is an identifier, a hash,
-   ':', '[' or a delimiter other than '*' - nest_first; '*' is the IE-hack path of parseDeclarationList, the known
-   finding conservation-iehack, and is the exact exception)
+   ':', '[' or a delimiter other than '*' - nest_first)
    yields exactly one unit per event, in order:
    - BeginRuleset with Values() = expected_sel: the selector tokens in order with a single space token exactly where
      the source has whitespace between two tokens neither of which is a combinator  , > + ~  and that are not inside
@@ -113,17 +118,21 @@ Print Assumptions cssparse_lexer_tok_in_lex.
    - AtRule / BeginAtRule with the lower-cased at-keyword as data and Values() = at_buf: the prelude tokens in order
      with a single space token exactly where the source has whitespace before a token that is not ',' ':' or ')',
      does not follow ',' ':' or '(' and is not a '(' or '[' directly after the at-keyword; EndAtRule;
-   - Comment with the comment as data; Token with the CDO / CDC token as data;
-   and then the end-of-input report; no parse error is reported.
-   MISSING: the block of an at-rule with any other name (unknown at-rule: a stream of Token units, one per lexer
-   token with whitespace kept except directly after the '{', comments dropped, closed by the '}' at bracket level 0),
-   comments inside blocks (the parser drops them; between two value tokens
-   they act like whitespace) - covered by the well-formed-stylesheet oracle only.  Known deviations on inputs of this
-   shape: declarations directly inside an at-rule nested in a ruleset are a parse error (finding
-   wellformed-nested-at-decl); Values() of units without values are stale (finding conservation-stale-values). *)
-Theorem cssparse_wellformed_partial : forall d evs w,
+   - Token with the token as data for every token of an unknown at-rule block and for CDO / CDC; Comment with the
+     comment as data;
+   and then the end-of-input report; no parse error is reported.  Units without values have Values() = [].
+   Exact exceptions (not in the grammar, because the code deviates there):
+   - a nested selector that starts with '*': the IE-hack path of parseDeclarationList glues '*' to the next token
+     (finding conservation-iehack);
+   - declarations directly inside an at-rule that is nested in a ruleset (a{@media x{b:c}}): the block of @media ...
+     is always a rule list, the declaration is a parse error (finding wellformed-nested-at-decl, pinned by the
+     suite); rulesets inside such a block are in the grammar.
+   Outside the property's grammar and not in the statement: comments inside blocks (the parser drops them; between
+   two value tokens a dropped comment acts like whitespace), stray ';' between declarations, a declaration with an
+   empty value. *)
+Theorem cssparse_wellformed : forall d evs w,
   css_lex d = LexDone (concat (map ev_toks evs) ++ optws w) -> evs_ok [] evs ->
   exists tr, parse_run (length evs + 1) (new_parser d false) = POk tr /\
     map view tr = map ev_unit evs ++ [(GError, TError, [], [])] /\ no_err tr.
 Proof. exact cssparse_wellformed_proof. Qed.
-Print Assumptions cssparse_wellformed_partial.
+Print Assumptions cssparse_wellformed.
